@@ -47,6 +47,9 @@ type tunnel struct {
 func genC14(ev *Ev) func(t *rapid.T) model.Case {
 	return func(t *rapid.T) model.Case {
 		enabled := rapid.IntRange(0, 4).Draw(t, "enabled") != 0
+		// every third case runs on UP4, where markers leave as P4Runtime PacketOut; the UP4 plug-in supports
+		// one downlink FAR per session
+		up4 := rapid.IntRange(0, 2).Draw(t, "up4") == 0
 		ops := []model.Op{opAssoc(0, 1)}
 		nSess := rapid.IntRange(1, 2).Draw(t, "nsess")
 		type gs struct{ fars []model.FAR }
@@ -55,6 +58,9 @@ func genC14(ev *Ev) func(t *rapid.T) model.Case {
 		for si := 0; si < nSess; si++ {
 			c := mkSessCtx(t, si, 0)
 			nDL := rapid.IntRange(1, 3).Draw(t, "ndl")
+			if up4 {
+				nDL = 1
+			}
 			op := model.Op{Kind: "est", Peer: 0, Seq: seq, Sess: si, CPSEID: uint64(300 + si)}
 			seq++
 			g := &gs{}
@@ -110,7 +116,7 @@ func genC14(ev *Ev) func(t *rapid.T) model.Case {
 				op.UpdFARs = append(op.UpdFARs, nf)
 				g.fars[i] = nf
 			}
-			if rapid.IntRange(0, 5).Draw(t, "create?") == 0 {
+			if !up4 && rapid.IntRange(0, 5).Draw(t, "create?") == 0 {
 				// a flagged Create FAR must not emit anything
 				id := uint32(50 + m)
 				cf := model.FAR{ID: id, Action: model.ActFORW, HasFwd: true, DstIf: model.IfAccess, HasOHC: true, TEID: 77, Peer: "198.18.8.8", EndMarker: true}
@@ -121,24 +127,54 @@ func genC14(ev *Ev) func(t *rapid.T) model.Case {
 				ops = append(ops, op)
 			}
 		}
-		return model.Case{Conf: map[string]any{"endmarker": enabled}, Ops: ops}
+		return model.Case{Conf: map[string]any{"endmarker": enabled, "up4": up4}, Ops: ops}
 	}
 }
 
 func runC14(c model.Case, ev *Ev) error {
 	enabled, _ := c.Conf["endmarker"].(bool)
+	up4, _ := c.Conf["up4"].(bool)
 	key := "bess-em"
 	if !enabled {
 		key = "bess-noalloc"
 	}
-	r, err := sharedRig(key, RigOpts{EndMarker: enabled})
+	var r *Rig
+	var err error
+	if up4 {
+		r, err = newRig(RigOpts{UP4: true, EndMarker: enabled})
+	} else {
+		r, err = sharedRig(key, RigOpts{EndMarker: enabled})
+	}
 	if err != nil {
 		return fmt.Errorf("INFRA: %v", err)
 	}
-	if enabled && !r.EndM.WaitConn(5*time.Second) {
+	if !up4 && enabled && !r.EndM.WaitConn(5*time.Second) {
 		return fmt.Errorf("INFRA: agent never connected to the end-marker socket")
 	}
 	cleanStart(r, ev)
+	// markers: the unixpacket listener on BESS, PacketOut messages on the switch's stream on UP4
+	pktLen := func() int {
+		if up4 {
+			return r.P4.PktLen()
+		}
+		if r.EndM != nil {
+			return r.EndM.Len()
+		}
+		return 0
+	}
+	pktSince := func(i int) []rig.UnixPkt {
+		if up4 {
+			var out []rig.UnixPkt
+			for _, p := range r.P4.PktSince(i) {
+				out = append(out, rig.UnixPkt{B: p.B, Seq: p.Seq})
+			}
+			return out
+		}
+		if r.EndM != nil {
+			return r.EndM.Since(i)
+		}
+		return nil
+	}
 	run, err := r.newRunner(1)
 	if err != nil {
 		return fmt.Errorf("INFRA: %v", err)
@@ -147,10 +183,7 @@ func runC14(c model.Case, ev *Ev) error {
 	acc := accessIP()
 	nontriv := false
 	changed := map[string]bool{}
-	pktBase := 0
-	if r.EndM != nil {
-		pktBase = r.EndM.Len()
-	}
+	pktBase := pktLen()
 	for i, op := range c.Ops {
 		// tunnels before the update
 		before := map[uint32]model.FAR{}
@@ -195,13 +228,13 @@ func runC14(c model.Case, ev *Ev) error {
 			}
 		}
 		var got []rig.UnixPkt
-		if r.EndM != nil {
+		if up4 || r.EndM != nil {
 			deadline := time.Now().Add(3 * time.Second)
-			for time.Now().Before(deadline) && r.EndM.Len()-pktBase < len(want) {
+			for time.Now().Before(deadline) && pktLen()-pktBase < len(want) {
 				time.Sleep(200 * time.Microsecond)
 			}
 			time.Sleep(2 * time.Millisecond) // grace for surplus packets
-			got = r.EndM.Since(pktBase)
+			got = pktSince(pktBase)
 			pktBase += len(got)
 		}
 		if len(got) < len(want) || len(got) > len(want)+optional {
@@ -209,9 +242,16 @@ func runC14(c model.Case, ev *Ev) error {
 		}
 		// the new rule must have been programmed before the marker left
 		lastAdd := map[string]int64{}
-		for _, cm := range r.B.LogSince(o.CmdFrom) {
-			if cm.Module == "farLookup" && cm.Cmd == "add" {
-				lastAdd[cm.Key] = cm.Seq
+		var lastWrite int64
+		if up4 {
+			for _, w := range r.P4.LogSince(o.CmdFrom) {
+				lastWrite = w.Seq
+			}
+		} else {
+			for _, cm := range r.B.LogSince(o.CmdFrom) {
+				if cm.Module == "farLookup" && cm.Cmd == "add" {
+					lastAdd[cm.Key] = cm.Seq
+				}
 			}
 		}
 		remaining := append([]tunnel(nil), want...)
@@ -247,6 +287,12 @@ func runC14(c model.Case, ev *Ev) error {
 			s := run.Sess[op.Sess]
 			for _, u := range op.UpdFARs {
 				if old, ok := before[u.ID]; ok && u.EndMarker && old.TEID == em.TEID && old.Peer == em.Dst {
+					if up4 {
+						if lastWrite == 0 || lastWrite > pk.Seq {
+							return fmt.Errorf("op %d: end marker for FAR %d left (event %d) before the switch was written (last Write of the modification: event %d)", i, u.ID, pk.Seq, lastWrite)
+						}
+						continue
+					}
 					k := fmt.Sprint(u.ID, s.UPSEID)
 					if seq, ok := lastAdd[k]; !ok || seq > pk.Seq {
 						return fmt.Errorf("op %d: end marker for FAR %d left (event %d) before the updated rule was programmed (farLookup add event %d, present=%v)", i, u.ID, pk.Seq, seq, ok)
@@ -259,19 +305,20 @@ func runC14(c model.Case, ev *Ev) error {
 		}
 		ev.Label(fmt.Sprintf("mod/markers=%d", len(want)))
 	}
-	if r.EndM != nil {
+	if up4 || r.EndM != nil {
 		time.Sleep(20 * time.Millisecond)
-		if extra := r.EndM.Since(pktBase); len(extra) != 0 {
+		if extra := pktSince(pktBase); len(extra) != 0 {
 			return fmt.Errorf("%d surplus end marker(s) after the last modification", len(extra))
 		}
 	}
+	ev.Label(fmt.Sprintf("up4=%v/enabled=%v", up4, enabled))
 	ev.Case(c, nontriv, len(c.Ops))
 	return nil
 }
 
 func TestC14(t *testing.T) {
 	ev := newEv("C14")
-	ev.Rule = "sessions with 1-3 downlink FARs towards generated gNB tunnels, followed by modifications with 1-3 Update FARs each (new tunnel / buffer / drop, SNDEM flag set, clear or absent, unknown FAR IDs, flagged Create FAR), with end markers enabled (harness unixpacket listener in place of BESS' pfcpPort) and disabled; every packet is decoded with gopacket; non-trivial = message with >=2 updated FARs of which some but not all are flagged, after at least one earlier tunnel change; distinct by case"
+	ev.Rule = "sessions with 1-3 downlink FARs towards generated gNB tunnels, followed by modifications with 1-3 Update FARs each (new tunnel / buffer / drop, SNDEM flag set, clear or absent, unknown FAR IDs, flagged Create FAR), with end markers enabled and disabled, on BESS (harness unixpacket listener in place of BESS' pfcpPort) and on UP4 (every third case, one downlink FAR per session; markers captured as PacketOut on the harness switch's stream, after the modification's last Write); every packet is decoded with gopacket; non-trivial = message with >=2 updated FARs of which some but not all are flagged, after at least one earlier tunnel change; distinct by case"
 	ev.Assume = []string{"a flagged update of a rule that had no tunnel before (buffering/dropping FAR) may or may not emit a marker: not asserted"}
 	runProp(t, ev, "markers", true, genC14(ev), runC14)
 }
